@@ -233,3 +233,48 @@ Proof.
     pose proof (run_entry_in_unprotect c1 entry_prog (proj2 entry_prog_has_both)) as P.
     rewrite He in P. cbn [fst] in P. rewrite <- I1, <- I2. exact P.
 Qed.
+
+(* ---------- a cancel or a failure is not diverted by anything but a local lifecycle event ---------- *)
+(* local lifecycle events: raised by this node's own API / manager, never by a message or a
+   transport callback alone *)
+Definition lifecycle_event (e : EventCode) : bool :=
+  match e with
+  | Open | Cancel | Error | Complete | BeginFinalizing | CleanupComplete | CompleteCleanupOnRestart => true
+  | _ => false
+  end.
+
+Definition not_diverted_check (e : EventCode) (s : Status) : bool :=
+  lifecycle_event e ||
+  match s with
+  | Cancelling | Failing => status_eqb (next_status e s) s && negb (starts_handler e s)
+  | _ => true
+  end.
+
+Lemma not_diverted_all : forall e s, not_diverted_check e s = true.
+Proof. apply forall_event_status. vm_compute. reflexivity. Qed.
+
+(* whatever arrives from the counterparty or the transport while a cancel / failure cleans up
+   (accept, restart, vouchers, pause / resume, data and progress reports, the responder's
+   completion, disconnects, ...), the status stays put and cleanup is not re-run; the only
+   events that move it are CleanupComplete (to the matching terminal status) and the node's
+   own lifecycle events *)
+Theorem cancel_fail_not_diverted :
+  forall es s,
+    s = Cancelling \/ s = Failing ->
+    forallb (fun e => negb (lifecycle_event e)) es = true ->
+    run_status s es = s /\
+    next_status CleanupComplete (run_status s es) = terminal_of s /\
+    forallb (fun e => negb (starts_handler e s)) es = true.
+Proof.
+  induction es as [|e es IH]; intros s Hs Hes.
+  - cbn. split; [reflexivity|]. split; [|reflexivity]. destruct Hs; subst; vm_compute; reflexivity.
+  - cbn in Hes. apply andb_prop in Hes. destruct Hes as [He Hes].
+    pose proof (not_diverted_all e s) as H. unfold not_diverted_check in H.
+    apply negb_true_iff in He. rewrite He in H. cbn [orb] in H.
+    assert (H' : status_eqb (next_status e s) s && negb (starts_handler e s) = true)
+      by (destruct Hs; subst; exact H).
+    apply andb_prop in H'. destruct H' as [H1 H2]. apply status_eqb_eq in H1.
+    cbn [run_status fold_left]. rewrite H1. fold (run_status s es).
+    destruct (IH s Hs Hes) as [A [B C]]. split; [exact A|]. split; [exact B|].
+    cbn [forallb]. rewrite H2. exact C.
+Qed.
